@@ -92,7 +92,9 @@ class SkipTo(Box):
 
 def _contains_cut(exp: Model) -> bool:
     # NOTE: [x] is x only when x cannot fail, and an optional or
-    # a closure does fail when its expression fails after a cut
+    # a closure does fail when its expression fails after a cut.
+    # Also, the outer optional defines the names in x even when x
+    # does not match, so it must stay when x has named elements
     from .basic import Cut
 
     return isinstance(exp, Cut) or any(
@@ -135,6 +137,7 @@ class Optional(Box):
             isinstance(exp, Optional | Closure | Join | Gather)
             and 'Positive' not in typename(exp)
             and not _contains_cut(exp)
+            and not (exp.defines_single or exp.defines_list)
         ):
             return exp
         new = copy(self)
